@@ -16,15 +16,75 @@ def segJ (s : Segment) : Json :=
   Json.arr #[intJ s.id, vecJ s.proximal, vecJ s.distal, match s.parent with | some p => intJ p | none => Json.null]
 def errJ : Err → Json
   | .indexError => "IndexError" | .outOfFuel => "outOfFuel" | .nodeError => "NodeError"
-  | .noSuchNode => "NoSuchNodeError" | .unboundLocal => "UnboundLocalError"
+  | .noSuchNode => "NoSuchNodeError" | .unboundLocal => "UnboundLocalError" | .keyError => "KeyError"
+  | .attributeError => "AttributeError"
 def arrJ (a : Arr) : Json :=
   Json.mkObj [("v", Json.arr (a.vertices.map vecJ).toArray), ("c", Json.arr (a.conn.map intJ).toArray),
     ("m", Json.arr (a.mask.map (fun b => intJ (if b then 1 else 0))).toArray)]
 def exJ (f : α → Json) : Except Err α → Json | .ok x => f x | .error e => errJ e
 def segsJ (l : List Segment) : Json := Json.arr (l.map segJ).toArray
 
+def parseSeg (j : Json) : Segment :=
+  match j with
+  | .arr #[i, p, d, par] =>
+    { id := (i.getInt?.toOption).getD 0, proximal := vec4 p, distal := vec4 d, parent := par.getInt?.toOption }
+  | _ => default
+
+/-- the live bindings of the cache dict, sorted by key -/
+def cacheJ (c : Cache) : Json :=
+  let rec dedup : List (Int × Segment) → List Int → List (Int × Segment)
+    | [], _ => []
+    | e :: es, seen => if seen.contains e.1 then dedup es seen else e :: dedup es (e.1 :: seen)
+  let live := (dedup c []).mergeSort (fun x y => decide (x.1 ≤ y.1))
+  Json.arr (live.map (fun e => Json.arr #[intJ e.1, segJ e.2])).toArray
+
+def unitJ (r : Except Err Unit) (o : Obj) : Json :=
+  match r with
+  | .ok _ => Json.mkObj [("res", "ok"), ("c", Json.arr (o.arr.conn.map intJ).toArray)]
+  | .error e => Json.mkObj [("res", errJ e)]
+
+def resJ (o : Obj) : Res → Json
+  | .seg r => exJ segJ r
+  | .len n => n
+  | .segs l => segsJ l
+  | .conv r => exJ segsJ r
+  | .unit r => unitJ r o
+
+/-- one call of a history; `valid` (`valid_ids`) and `set` (`segments[i] = seg`) are outside the property's `Op` -/
+def stepJ (fixed : Bool) (o : Obj) (j : Json) : Json × Obj :=
+  match getStr j "o" with
+  | "get" => let r := step o (.get (getInt j "i")); (resJ r.2 r.1, r.2)
+  | "len" => let r := step o .len; (resJ r.2 r.1, r.2)
+  | "iter" => let r := step o .iter; (resJ r.2 r.1, r.2)
+  | "sfv" => let r := step o (.sfv (getInt j "k")); (resJ r.2 r.1, r.2)
+  | "conv" => let r := step o .conv; (resJ r.2 r.1, r.2)
+  | "toroot" =>
+    let r := (if fixed then stepFixed o (.toRoot (getInt j "j")) else step o (.toRoot (getInt j "j")))
+    (resJ r.2 r.1, r.2)
+  | "valid" => (Json.bool (validIds o), o)
+  | "append" => (Json.null, appendSeg o (parseSeg (getObj j "s")))
+  | "iadd" => (Json.null, (getArr j "ss").toList.foldl (fun o' sj => appendSeg o' (parseSeg sj)) o)   -- `segments += [...]`
+  -- plain accessors of ArrayMorphology (read-only, straight from the arrays)
+  | "parent_id" => (exJ intJ (getI o.arr.conn (getInt j "i")), o)
+  | "vertex" => (exJ vecJ (getI o.arr.vertices (getInt j "i")), o)
+  | "children" => (Json.arr ((whereEq (getInt j "i") 0 o.arr.conn).map intJ).toArray, o)
+  | "physical" => (Json.arr ((whereFalse 0 o.arr.mask).map intJ).toArray, o)
+  | "root_vertex" =>
+    (exJ vecJ (match rootIndex o.arr.conn with | .ok k => getI o.arr.vertices (k : Int) | .error e => .error e), o)
+  | "alen" => (o.arr.conn.length, o)
+  | "set" => (Json.null, setItem o (getInt j "i") (parseSeg (getObj j "s")))
+  | _ => (Json.mkObj [("error", "unknown call")], o)
+
+def histJ (fixed : Bool) (o : Obj) : List Json → List Json × Obj
+  | [] => ([], o)
+  | c :: cs => let r := stepJ fixed o c; let rs := histJ fixed r.2 cs; (r.1 :: rs.1, rs.2)
+
 def handle (j : Json) : Json :=
   match getStr j "op" with
+  | "hist" =>
+    -- "fixed": the tree under test has fixes/C18-toroot-invalidates-cache.patch (to_root empties the cache)
+    let r := histJ (getBool j "fixed") (fresh (parseArr j)) (getArr j "calls").toList
+    Json.mkObj [("steps", Json.arr r.1.toArray), ("arr", arrJ r.2.arr), ("cache", cacheJ r.2.cache)]
   | "morph" =>
     let a := parseArr j
     Json.mkObj [("len", viewLen a), ("iter", segsJ (viewIter a)),
@@ -40,8 +100,20 @@ def handle (j : Json) : Json :=
     | .ok ms => Json.mkObj [("res", "ok"), ("morphs", Json.arr (ms.map arrJ).toArray)]
     | .error e => Json.mkObj [("res", errJ e)]
   | "doc" =>
+    let xcell (c : Json) : XCell :=
+      { id := getStr? c "id",
+        morph := match getStr c "kind" with
+          | "none" => .none
+          | "plain" => .plain
+          | _ => .array { id := getStr? c "mid", arr := parseArr c } }
+    let xmorph (m : Json) : XMorph := match getStr m "kind" with | "plain" => .plain | _ => .array (parseMorph m)
     let d : Doc := { cells := (getArr j "cells").toList.map parseCell, morphs := (getArr j "morphs").toList.map parseMorph }
-    match ((if getBool j "old" then writeDocOld d else writeDoc d)).bind load with
+    let xd : XDoc := { cells := (getArr j "cells").toList.map xcell, morphs := (getArr j "morphs").toList.map xmorph }
+    -- "loader_fixed": the tree under test has fixes/C18-loader-vertices-is-array.patch
+    let ld (f : H5) : Except Err (List Arr) := if getBool j "loader_fixed" then .ok (loadFixed f) else load f
+    -- "writer_fixed": the tree under test has fixes/C18-writer-skips-non-array.patch
+    let wr := if getBool j "old" then writeDocOld d else if getBool j "writer_fixed" then writeXDocFixed xd else writeXDoc xd
+    match wr.bind ld with
     | .ok ms => Json.mkObj [("res", "ok"), ("morphs", Json.arr (ms.map arrJ).toArray)]
     | .error e => Json.mkObj [("res", errJ e)]
   | _ => Json.mkObj [("error", "unknown op")]
